@@ -74,6 +74,12 @@ def project(lines, names=None):
             out.append({"e": "signal"})
         elif ev == "root_wait_signal":
             out.append({"e": "waitsig"})
+        elif ev == "h_proc":
+            out.append({"e": "proc", "alive": int(r["alive"])})
+        elif ev == "h_latency":
+            out.append({"e": "latency", "ms": int(r["ms"])})
+        elif ev == "h_names":
+            out.append({"e": "names", "ok": bool(r["ok"])})
         elif ev == "h_exit":
             out.append({"e": "exit", "status": int(r["status"]), "launched": sorted(set(launched)),
                         "exited": sorted(set(exited))})
